@@ -280,7 +280,7 @@ func replay(x *apix.Exec, t *Track, prog []apix.Op) *apix.Fail {
 }
 
 var mutators = map[string]bool{"put": true, "del": true, "mkb": true, "mkbi": true, "delb": true, "mvb": true,
-	"seqset": true, "seqnext": true, "fill": true, "drain": true}
+	"seqset": true, "seqnext": true, "fill": true, "drain": true, "cdel": true, "thin": true}
 
 func step(x *apix.Exec, t *Track, op apix.Op) *apix.Fail {
 	var before string
